@@ -39,9 +39,14 @@ CLAIM = {
             'the one picked by the mixed-radix digits of i over the name-sorted parameters (last fastest), the '
             'number of variations is the product of the lengths; get_pack_indexes and get_result_values_list return '
             'exactly the combinations carrying the fixed values, in order (proved for duplicate-free value lists; '
-            'negative witness proved for duplicates). The model is tied to runner.py / parameters.py / results.py '
+            'negative witness proved for duplicates); the parameters object is a state machine (add / replace / remove '
+            '/ set_unpack_parameter, rejected calls included) and after ANY two histories that leave the same content '
+            '(same dictionary, same unpacked set) every look-up agrees, i.e. a look-up equals the one on a freshly built '
+            'object: no stale derived state (lookup_no_stale_state). The model is tied to runner.py / parameters.py / results.py '
             'by exact comparison of call logs, runned_reps, stored statistics, partial files and lookups on seeded '
-            'and exhaustively enumerated small scenarios; independent oracles re-check the property on the real '
+            'and exhaustively enumerated small scenarios, and on seeded histories that interleave simulate(), look-ups '
+            'and mutations of the parameter set on one runner / one SimulationParameters object (each look-up also '
+            'compared with a freshly constructed object of the same content); independent oracles re-check the property on the real '
             'code from the raw event log.',
     'note': 'Trusted beyond the common base: the hand model <-> code correspondence (a behaviour not reached by '
             'the generators is not tied), numpy reshape/indexing modelled as row-major index arithmetic, pickle '
@@ -141,12 +146,12 @@ def make_params(case):
     return p
 
 
-def run_impl(case, scratch):
-    """Run the scenario on the real code. Returns (canonical string, observations)."""
+def make_runner(case):
+    """a SimulationRunner whose `_run_simulation` replays case['outs'] and whose `_keep_going`
+    applies case['keep']; both log what they see"""
     from pyphysim.simulations.results import Result, SimulationResults
     from pyphysim.simulations.runner import SimulationRunner, SkipThisOne
     outs = case['outs']
-    names = case['names']
 
     class Scripted(SimulationRunner):
         def __init__(self):
@@ -163,6 +168,8 @@ def run_impl(case, scratch):
             c = self.pos
             o = outs[c]
             self.pos += 1
+            # the values this variation carries for the parameters that are unpacked right now
+            names = list(self.params._unpacked_parameters_set)
             self.calllog.append((current_parameters.unpack_index, c, o,
                                  {n: current_parameters[n] for n in names}))
             self.events.append(('run',) + self.calllog[-1])
@@ -184,51 +191,65 @@ def run_impl(case, scratch):
                                 current_sim_results['tok'][-1]._value, current_rep, v))
             return v
 
+    runner = Scripted()
+    runner.rep_max = case['repmax']
+    p = runner.params
+    p.add(FIXED_EXTRA, FIXED_EXTRA_VALUE)
+    for n in case['names']:
+        p.add(n, list(case['vals'][n]))
+        p.set_unpack_parameter(n)
+    return runner
+
+
+def run_op(runner, op, tmp):
+    """one simulate() / simulate(index) call; returns (canonical part, observation)"""
+    from pyphysim.simulations.results import SimulationResults
+    start = len(runner.calllog)
+    estart = len(runner.events)
+    status = 'ok'
+    try:
+        if op == 'all':
+            runner.simulate()
+        else:
+            runner.simulate(int(op.split(':')[1]))
+    except ScriptExhausted:
+        status = 'Exhausted'
+    except Exception as e:  # SkipThisOne, RuntimeError, ...
+        status = type(e).__name__
+    calls = runner.calllog[start:]
+    res = runner.results
+    nres = len(res['sum']) if 'sum' in res.get_result_names() else 0
+    stats = [_stat(res, j) for j in range(nres)]
+    store = {}
+    for fn in sorted(os.listdir(tmp)):
+        if '_unpack_' in fn:
+            idx = int(fn.split('_unpack_')[1].split('.')[0])
+            sr = SimulationResults.load_from_file(os.path.join(tmp, fn))
+            st, sk = _stat(sr, 0)
+            store[idx] = (int(sr.current_rep), sk, st)
+    part = 'st=%s log=%s reps=%s rr=%s res=%s store=%s' % (
+        status, ','.join(str(c[0]) for c in calls), _reps(runner.runned_reps), _reps(res.runned_reps),
+        '|'.join('%s/%s' % s for s in stats),
+        '|'.join('%d:%d:%s:%s' % ((i,) + store[i]) for i in sorted(store)))
+    ob = {'status': status, 'calls': calls, 'events': runner.events[estart:], 'reps': runner.runned_reps,
+          'stats': stats, 'store': dict(store)}
+    return part, ob
+
+
+def run_impl(case, scratch):
+    """Run the scenario on the real code. Returns (canonical string, observations)."""
     tmp = tempfile.mkdtemp(prefix='c05_', dir=scratch)
     try:
-        runner = Scripted()
-        runner.rep_max = case['repmax']
-        p = runner.params
-        p.add(FIXED_EXTRA, FIXED_EXTRA_VALUE)
-        for n in names:
-            p.add(n, list(case['vals'][n]))
-            p.set_unpack_parameter(n)
+        runner = make_runner(case)
         if case['file']:
             runner.set_results_filename(os.path.join(tmp, 'res'))
             runner.partial_results_folder = None
         parts = []
         obs = {'ops': []}
         for op in case['ops']:
-            start = len(runner.calllog)
-            estart = len(runner.events)
-            status = 'ok'
-            try:
-                if op == 'all':
-                    runner.simulate()
-                else:
-                    runner.simulate(int(op.split(':')[1]))
-            except ScriptExhausted:
-                status = 'Exhausted'
-            except Exception as e:  # SkipThisOne, RuntimeError, ...
-                status = type(e).__name__
-            calls = runner.calllog[start:]
-            res = runner.results
-            nres = len(res['sum']) if 'sum' in res.get_result_names() else 0
-            stats = [_stat(res, j) for j in range(nres)]
-            store = {}
-            for fn in sorted(os.listdir(tmp)):
-                if '_unpack_' in fn:
-                    idx = int(fn.split('_unpack_')[1].split('.')[0])
-                    sr = SimulationResults.load_from_file(os.path.join(tmp, fn))
-                    st, sk = _stat(sr, 0)
-                    store[idx] = (int(sr.current_rep), sk, st)
-            parts.append('st=%s log=%s reps=%s rr=%s res=%s store=%s' % (
-                status, ','.join(str(c[0]) for c in calls), _reps(runner.runned_reps), _reps(res.runned_reps),
-                '|'.join('%s/%s' % s for s in stats),
-                '|'.join('%d:%d:%s:%s' % ((i,) + store[i]) for i in sorted(store))))
-            obs['ops'].append({'status': status, 'calls': calls, 'events': runner.events[estart:],
-                               'reps': runner.runned_reps,
-                               'stats': stats, 'store': dict(store)})
+            part, ob = run_op(runner, op, tmp)
+            parts.append(part)
+            obs['ops'].append(ob)
         looks = []
         obs['look'] = []
         for fx in case['look']:
@@ -242,6 +263,318 @@ def run_impl(case, scratch):
         return ' ; '.join(parts) + ' ; look=' + '/'.join(looks), obs
     finally:
         shutil.rmtree(tmp, ignore_errors=True)
+
+
+# ------------------------------------------------------------------ histories that mutate the parameters
+def hist_line(case):
+    names = case['names']
+    vals = '|'.join(','.join(str(v) for v in case['vals'][n]) for n in names)
+    outs = ','.join('s' if o == 's' else str(o) for o in case['outs'])
+    return 'hist names=%s vals=%s repmax=%d keep=%s outs=%s ops=%s' % (
+        ','.join(names), vals, case['repmax'], ';'.join(case['keep']), outs, ','.join(case['ops']))
+
+
+def parse_hop(op):
+    """('all',) | ('padd', name, [ints]) | ('pscalar', name, int) | ('prem', name) |
+    ('punp', name, bool) | ('q', [(name, value)])"""
+    if op == 'all':
+        return ('all',)
+    if op.startswith('q:'):
+        body = op[2:]
+        fx = []
+        for t in [x for x in body.split('+') if x]:
+            k, v = t.split(':')
+            fx.append((k, int(v)))
+        return ('q', fx)
+    t = op.split(':')
+    if t[0] == 'padd':
+        return ('padd', t[1], [int(x) for x in t[2].split('.') if x])
+    if t[0] == 'pscalar':
+        return ('pscalar', t[1], int(t[2]))
+    if t[0] == 'prem':
+        return ('prem', t[1])
+    if t[0] == 'punp':
+        return ('punp', t[1], t[2] == '1')
+    raise ValueError(op)
+
+
+def apply_content(content, hop):
+    """what the parameters object must store after the call (own bookkeeping, Python dict/set
+    semantics of the documented API); content = (dict name -> list | int, set of unpacked names)"""
+    d, u = content
+    if hop[0] == 'padd':
+        d[hop[1]] = list(hop[2])
+    elif hop[0] == 'pscalar':
+        d[hop[1]] = hop[2]
+    elif hop[0] == 'prem':
+        if hop[1] in d:
+            del d[hop[1]]
+            u.discard(hop[1])
+    elif hop[0] == 'punp':
+        if hop[1] in d and isinstance(d[hop[1]], list):
+            if hop[2]:
+                u.add(hop[1])
+            else:
+                u.discard(hop[1])
+
+
+def query_params(p, res, fx, with_results):
+    """every look-up the property speaks about, on the parameters object `p` (and the results
+    object `res`): (num, combos, unpack indexes, pack, values)"""
+    out = {}
+    try:
+        out['n'] = int(p.get_num_unpacked_variations())
+        lst = p.get_unpacked_params_list()
+        names = sorted(p._unpacked_parameters_set)
+        out['combos'] = [[c[n] for n in names] for c in lst]
+        out['idx'] = [c.unpack_index for c in lst]
+    except Exception as e:
+        out['error'] = type(e).__name__
+        return out
+    try:
+        out['pack'] = ('ok', [int(x) for x in p.get_pack_indexes(dict(fx))])
+    except BaseException as e:
+        out['pack'] = ('error', type(e).__name__)
+    if with_results:
+        try:
+            out['rv'] = ('ok', [int(x) for x in res.get_result_values_list('tok', dict(fx))])
+        except BaseException as e:
+            out['rv'] = ('error', type(e).__name__)
+    return out
+
+
+def _show_pack(r):
+    return ','.join(str(x) for x in r[1]) if r[0] == 'ok' else 'error:' + r[1]
+
+
+def run_hist_impl(case, scratch):
+    """simulate() calls, look-ups and mutations of the parameter set interleaved on ONE runner /
+    ONE SimulationParameters object.  Every look-up is also made on a freshly constructed
+    SimulationParameters (+ SimulationResults holding the same Result objects) with the same content."""
+    from pyphysim.simulations.parameters import SimulationParameters
+    from pyphysim.simulations.results import SimulationResults
+    tmp = tempfile.mkdtemp(prefix='c05h_', dir=scratch)
+    try:
+        runner = make_runner(case)
+        content = ({n: list(case['vals'][n]) for n in case['names']}, set(case['names']))
+        parts = []
+        obs = {'ops': []}
+        simulated = False
+        for op in case['ops']:
+            hop = parse_hop(op)
+            if hop[0] == 'all':
+                part, ob = run_op(runner, 'all', tmp)
+                simulated = True
+                ob['kind'] = 'all'
+                ob['content'] = ({k: (list(v) if isinstance(v, list) else v) for k, v in content[0].items()},
+                                 set(content[1]))
+            elif hop[0] == 'q':
+                q = query_params(runner.params, runner.results, hop[1], simulated)
+                fresh = SimulationParameters()
+                fresh.add(FIXED_EXTRA, FIXED_EXTRA_VALUE)
+                for k in sorted(content[0]):
+                    v = content[0][k]
+                    fresh.add(k, list(v) if isinstance(v, list) else v)
+                for k in sorted(content[1]):
+                    fresh.set_unpack_parameter(k)
+                fres = SimulationResults()
+                fres._results = {k: list(v) for k, v in runner.results._results.items()}
+                fres.set_parameters(fresh)
+                qf = query_params(fresh, fres, hop[1], simulated)
+                if 'error' in q:
+                    part = 'q=' + q['error']
+                else:
+                    part = 'n=%d nc=%d combos=%s pack=%s rv=%s' % (
+                        q['n'], len(q['combos']), '|'.join('.'.join(str(v) for v in c) for c in q['combos']),
+                        _show_pack(q['pack']), _show_pack(q['rv']) if simulated else '-')
+                ob = {'kind': 'q', 'q': q, 'fresh': qf, 'fixed': hop[1],
+                      'content': ({k: (list(v) if isinstance(v, list) else v) for k, v in content[0].items()},
+                                  set(content[1]))}
+            else:
+                status = 'ok'
+                p = runner.params
+                try:
+                    if hop[0] == 'padd':
+                        p.add(hop[1], list(hop[2]))
+                    elif hop[0] == 'pscalar':
+                        p.add(hop[1], hop[2])
+                    elif hop[0] == 'prem':
+                        p.remove(hop[1])
+                    else:
+                        p.set_unpack_parameter(hop[1], hop[2])
+                except Exception as e:
+                    status = type(e).__name__
+                apply_content(content, hop)
+                part = 'p=' + status
+                ob = {'kind': 'p', 'status': status}
+            parts.append(part)
+            obs['ops'].append(ob)
+        return ' ; '.join(parts), obs
+    finally:
+        shutil.rmtree(tmp, ignore_errors=True)
+
+
+def _pseudo(case, content):
+    """the grid the object holds right now, as a case for the grid oracles"""
+    d, u = content
+    names = sorted(u)
+    return dict(case, names=names, vals={n: d[n] for n in names}, file=False, look=[])
+
+
+def oracle_hist(case, obs):
+    """Property on a history with parameter mutations: every simulate() obeys the repetition
+    discipline ON THE CURRENT GRID, and every look-up (a) equals the look-up on a freshly built
+    object with the same content (no stale derived state) and (b) returns the combinations that
+    carry the fixed values of the current grid (first principles)."""
+    out = []
+    last_all = None      # (stats, content-at-that-time) of the last completed simulate()
+    mutated = False
+    for opi, (op, ob) in enumerate(zip(case['ops'], obs['ops'])):
+        if ob['kind'] == 'p':
+            mutated = True
+            last_all = (last_all[0], None) if last_all else None
+            continue
+        if ob['kind'] == 'all':
+            pc = _pseudo(case, ob['content'])
+            if any(not isinstance(v, list) for v in pc['vals'].values()):
+                continue
+            v = oracle_sim(dict(pc, ops=['all']), {'ops': [ob], 'look': []})
+            if v:
+                return out + v
+            last_all = (ob['stats'], ob['content']) if ob['status'] == 'ok' else None
+            continue
+        q, qf = ob['q'], ob['fresh']
+        pc = _pseudo(case, ob['content'])
+        stale_cls = 'stale-derived-state' if mutated else 'differs-from-fresh-object'
+        pairs = [('SimulationParameters.get_num_unpacked_variations', 'n'),
+                 ('SimulationParameters.get_unpacked_params_list', 'combos'),
+                 ('SimulationParameters.get_unpacked_params_list', 'idx'),
+                 ('SimulationParameters.get_pack_indexes', 'pack'),
+                 ('SimulationResults.get_result_values_list', 'rv'),
+                 ('SimulationParameters.get_num_unpacked_variations', 'error')]
+        for call, k in pairs:
+            if q.get(k) != qf.get(k):
+                out.append((call, stale_cls, 'after %r: %s = %r on the used object, %r on a fresh object with '
+                            'the same content' % (case['ops'][:opi + 1][-4:], k, q.get(k),
+                                                  qf.get(k))))
+        if out:
+            return out
+        if 'error' in q or any(not isinstance(v, list) for v in pc['vals'].values()):
+            continue
+        names, dims, n, combo = grid_facts(pc)
+        if q['n'] != n or len(q['combos']) != n:
+            out.append(('SimulationParameters.get_num_unpacked_variations', 'wrong-number-of-variations',
+                        'n=%r len=%d expected %d' % (q['n'], len(q['combos']), n)))
+            return out
+        for i in range(n):
+            if q['combos'][i] != [combo(i)[k] for k in names] or q['idx'][i] != (i if names else -1):
+                out.append(('SimulationParameters.get_unpacked_params_list', 'wrong-parameters',
+                            'variation %d is %r (unpack_index %r)' % (i, q['combos'][i], q['idx'][i])))
+                return out
+        fx = ob['fixed']
+        pos, absent, dup = expected_matches(pc, fx)
+        kind, val = q['pack']
+        if not (absent and kind == 'error' and val == 'ValueError'):
+            if kind != 'ok' or val != pos:
+                out.append(('SimulationParameters.get_pack_indexes', lookup_class(pc, dup),
+                            'fixed=%r returned %r, matching combinations %r' % (fx, val, pos)))
+        if 'rv' in q and last_all and last_all[1] is not None and len(last_all[0]) == n and n > 0:
+            toks = [int(st.split('/')[7]) for st, _ in last_all[0]]
+            kind, val = q['rv']
+            exp = [toks[i] for i in pos] if fx else toks
+            if not (fx and absent and kind == 'error' and val == 'ValueError'):
+                if kind != 'ok' or val != exp:
+                    out.append(('SimulationResults.get_result_values_list', lookup_class(pc, dup),
+                                'fixed=%r returned %r, matching combinations %r -> %r' % (fx, val, pos, exp)))
+    return out
+
+
+def content_after(names, vals, ops):
+    content = ({n: list(vals[n]) for n in names}, set(names))
+    for op in ops:
+        hop = parse_hop(op)
+        if hop[0] not in ('all', 'q'):
+            apply_content(content, hop)
+    return content
+
+
+def gen_hist(rng):
+    """simulate() / look-up / parameter-mutation histories on one runner (no results file)"""
+    names, vals = gen_grid(rng, max_len=3, dup_p=0.05, empty_p=0.02)
+    repmax = rng.randint(1, 3)
+    keep = [gen_rule(rng, repmax) for _ in range(rng.choice([1, 1, 2]))]
+    ops = []
+    budget = 330
+
+    def lst(v):
+        return '.'.join(str(x) for x in v)
+
+    def newlist(avoid_len=None):
+        while True:
+            ln = rng.randint(0, 3) if rng.chance(0.05) else rng.randint(1, 3)
+            if ln != avoid_len:
+                break
+        base = list(range(-3, 12))
+        rng.shuffle(base)
+        return base[:ln]
+
+    def fixed(d, u):
+        cur = sorted(u)
+        fx = gen_looks(rng, cur, {n: d[n] for n in cur}, 1)[0]
+        return 'q:' + '+'.join('%s:%d' % (k, v) for k, v in fx)
+
+    for _ in range(rng.randint(4, 12)):
+        d, u = content_after(names, vals, ops)
+        k = rng.below(100)
+        if k < 28:
+            nv = 1
+            for nm in u:
+                nv *= len(d[nm])
+            cost = nv * (repmax + 1) + 2
+            if cost <= budget:
+                ops.append('all')
+                budget -= cost
+            else:
+                ops.append(fixed(d, u))
+        elif k < 62:
+            ops.append(fixed(d, u))
+        elif k < 78:
+            if u:                                         # replace a value list by one of another length
+                nm = rng.choice(sorted(u))
+                ops.append('padd:%s:%s' % (nm, lst(newlist(avoid_len=len(d[nm])))))
+        elif k < 85:
+            nm = rng.choice(NAME_POOL)                    # a new list parameter, unpacked at once
+            if nm not in d and len(u) < 3:
+                ops += ['padd:%s:%s' % (nm, lst(newlist())), 'punp:%s:1' % nm]
+        elif k < 91:
+            if d:
+                nm = rng.choice(sorted(d))
+                if isinstance(d[nm], list):
+                    if nm in u:
+                        ops.append('punp:%s:0' % nm)
+                    elif len(u) < 3:
+                        ops.append('punp:%s:1' % nm)
+                    else:
+                        ops.append('punp:%s:0' % nm)       # KeyError: not in the set
+                else:
+                    ops.append('punp:%s:1' % nm)           # ValueError: not iterable
+        elif k < 95:
+            if d:
+                ops.append('prem:%s' % rng.choice(sorted(d)))
+        elif k < 98:
+            nm = rng.choice(NAME_POOL)
+            if nm not in u:                                # never turn an unpacked parameter into a scalar
+                ops.append('pscalar:%s:%d' % (nm, rng.randint(-3, 9)))
+        else:
+            ops.append(rng.choice(['prem:nope', 'punp:nope:1', 'punp:nope:0']))
+    if 'all' not in ops:
+        ops.insert(rng.below(len(ops) + 1), 'all')
+    d, u = content_after(names, vals, ops)
+    ops.append(fixed(d, u))
+    skip_p = rng.choice([0.0, 0.1, 0.2])
+    outs = ['s' if rng.chance(skip_p) else rng.randint(-3, 6) for _ in range(380)]
+    return dict(kind='hist', names=names, vals=vals, repmax=repmax, keep=keep, ops=ops, outs=outs, file=False,
+                look=[])
 
 
 def run_grid_impl(case):
@@ -524,21 +857,35 @@ def _first(viols, call):
     return None
 
 
+def _o_hist(case):
+    scratch = tempfile.mkdtemp(prefix='c05_replay_')
+    try:
+        _, obs = run_hist_impl(case, scratch)
+    finally:
+        shutil.rmtree(scratch, ignore_errors=True)
+    return oracle_hist(case, obs)
+
+
+def _violations(case):
+    kind = case.get('kind')
+    return _o_grid(case) if kind == 'grid' else _o_hist(case) if kind == 'hist' else _o_sim(case)
+
+
 def _mk(call):
     def f(case):
-        viols = _o_grid(case) if case.get('kind') == 'grid' else _o_sim(case)
-        return _first(viols, call)
+        return _first(_violations(case), call)
     return f
 
 
 ORACLES = {c: _mk(c) for c in ('SimulationRunner.simulate', 'SimulationResults.get_result_values_list',
                                'SimulationParameters.get_pack_indexes',
-                               'SimulationParameters.get_unpacked_params_list')}
+                               'SimulationParameters.get_unpacked_params_list',
+                               'SimulationParameters.get_num_unpacked_variations')}
 
 
 def replay(ctx, rep):
     case = rep['case']
-    viols = _o_grid(case) if case.get('kind') == 'grid' else _o_sim(case)
+    viols = _violations(case)
     return any(c == rep['call'] and cls == rep['class'] for c, cls, d in viols)
 
 
@@ -638,7 +985,8 @@ def run_cases(ctx, cases, name='simulate'):
     drv = core.Driver(DRIVER)
     for lo in range(0, len(cases), 2000):
         chunk = cases[lo:lo + 2000]
-        model = drv.ask([grid_line(c) if c['kind'] == 'grid' else case_line(c) for c in chunk])
+        model = drv.ask([grid_line(c) if c['kind'] == 'grid' else hist_line(c) if c['kind'] == 'hist'
+                         else case_line(c) for c in chunk])
         for c, m in zip(chunk, model):
             if c['kind'] == 'grid':
                 impl, obs = run_grid_impl(c)
@@ -650,6 +998,35 @@ def run_cases(ctx, cases, name='simulate'):
                 ctx.branch('grid:params=%d' % len(c['names']))
                 if any(k == 'error' for k, _ in obs['pack']):
                     ctx.branch('grid:pack-error')
+            elif c['kind'] == 'hist':
+                impl, obs = run_hist_impl(c, ctx.scratch)
+                kinds = [o.split(':')[0] for o in c['ops']]
+                # look-ups that follow a mutation of the parameter set, and whether a simulate() came between
+                shape = []
+                mutated = False
+                for k in kinds:
+                    if k.startswith('p'):
+                        mutated = True
+                        shape.append('m')
+                    elif k == 'all':
+                        shape.append('s')
+                    elif mutated:
+                        shape.append('q')
+                key = ('hist', tuple(sorted(len(c['vals'][n]) for n in c['names'])), ''.join(shape)[:12])
+                ctx.corr('history-with-parameter-mutations', c, impl, m, nontrivial='q' in shape, key=key)
+                viols = oracle_hist(c, obs)
+                ctx.branch('hist')
+                if 'mq' in ''.join(shape):
+                    ctx.branch('hist:lookup-right-after-mutation')
+                if 'msq' in ''.join(shape) or 'ms' in ''.join(shape) and 'q' in ''.join(shape).split('ms', 1)[1]:
+                    ctx.branch('hist:mutate-simulate-lookup')
+                for k in kinds:
+                    if k.startswith('p'):
+                        ctx.branch('hist:' + k)
+                for ob in obs['ops']:
+                    if ob['kind'] == 'p' and ob['status'] != 'ok':
+                        ctx.branch('hist:rejected-' + ob['status'])
+                ctx.sample({'line': hist_line(c)[:400], 'impl': impl[:400], 'model': m[:400]}, limit=8)
             else:
                 impl, obs = run_impl(c, ctx.scratch)
                 key = classify(c, obs)
@@ -760,18 +1137,25 @@ def check(ctx):
                 'duplicate values) x rep_max 1-8 x per-variation _keep_going rules (always / sum threshold / rep / '
                 'skip counter / truth table of (sum mod m, rep mod n)) x global outcome stream (values and '
                 'SkipThisOne, occasionally too short) x history of simulate() / simulate(index) calls on one runner '
-                'with and without a results file x lookups by fixed values; non-trivial = distinct (sorted grid '
+                'with and without a results file x lookups by fixed values; plus histories on ONE runner / ONE parameters '
+                'object interleaving simulate(), look-ups and mutations of the parameter set (value list replaced by one '
+                'of another length, parameters added / removed, set_unpack_parameter on/off, rejected calls), every '
+                'look-up also made on a freshly built object with the same content; non-trivial = distinct (sorted grid '
                 'shape, set of stop reasons limit/rule, skips present, file, op kinds) with at least one completed '
                 'variation')
     quick = ctx.tier == 'quick'
     core.prove(ctx, MODULE, drivers=[DRIVER], scratch=ctx.scratch)
     ctx.required_branches = ['stop:limit', 'stop:rule', 'skips', 'params=0', 'params=1', 'params=2', 'params=3',
                              'resume-from-partial-file', 'repeated-simulate-no-file', 'single-variation',
-                             'lookup:ok', 'grid:pack-error', 'status:Exhausted', 'status:RuntimeError']
+                             'lookup:ok', 'grid:pack-error', 'status:Exhausted', 'status:RuntimeError',
+                             'hist:lookup-right-after-mutation', 'hist:mutate-simulate-lookup', 'hist:padd',
+                             'hist:prem', 'hist:punp', 'hist:pscalar']
     cases = corpus_cases()
     rng = ctx.rng.fork('sim')
     cases += [gen_case(rng) for _ in range(1500 if quick else 15000)]
     cases += grid_cases(ctx.rng.fork('grid'), 4000 if quick else 60000)
+    hrng = ctx.rng.fork('hist')
+    cases += [gen_hist(hrng) for _ in range(600 if quick else 8000)]
     if quick:
         cases += exhaustive_cases(4, (1, 2))
     else:
@@ -793,11 +1177,14 @@ def search(ctx):
     """deeper failing-input search on the implementation (oracles only; no model needed)"""
     rng = ctx.rng.fork('search')
     cases = corpus_cases() + [gen_case(rng) for _ in range(1500)] + grid_cases(rng, 3000) \
-        + exhaustive_cases(5, (1, 2))
+        + [gen_hist(rng) for _ in range(1500)] + exhaustive_cases(5, (1, 2))
     for c in cases:
         if c['kind'] == 'grid':
             _, obs = run_grid_impl(c)
             viols = oracle_grid(c, obs)
+        elif c['kind'] == 'hist':
+            _, obs = run_hist_impl(c, ctx.scratch)
+            viols = oracle_hist(c, obs)
         else:
             _, obs = run_impl(c, ctx.scratch)
             viols = oracle_sim(c, obs)
